@@ -49,7 +49,7 @@ func (c14) Info() core.Info {
 			"the re-read is skipped when the filtered PMT has no stream (that is C06's recorded finding about ReadPMT)",
 			"any number of output packets is accepted as long as headers match the inputs index-wise and the concatenated payload is the expected section followed only by 0xFF",
 		},
-		RequiredProbes: []string{"keep_none", "keep_some", "keep_all", "missing_some", "missing_all", "dup_requested", "pat_or_pmt_pid_requested", "multi_packet_in", "fewer_packets_out", "pointer_gt0", "af_in_header", "reread_ok", "empty_request", "remove_streams", "refused_call_before"},
+		RequiredProbes: []string{"keep_none", "keep_some", "keep_all", "missing_some", "missing_all", "dup_requested", "pat_or_pmt_pid_requested", "multi_packet_in", "fewer_packets_out", "pointer_gt0", "af_in_header", "reread_ok", "empty_request", "remove_streams", "refused_call_before", "sibling_call_before", "section_plus_pointer_gt_1021"},
 	}
 }
 
@@ -58,6 +58,26 @@ func (c14) Gen(r *core.Rand, tier string) interface{} {
 	s.PMT = genPMT(r, 30)
 	s.Pointer = r.Pick(0, 0, 0, 1, 7, 60, r.Range(0, 150))
 	s.Trailing = r.Pick(0, 0, 3, 50, 190)
+	if r.Chance(1, 8) {
+		// a section close to the 1021-byte limit behind a long pointer_field filler
+		inUse := map[int]bool{}
+		for _, e := range s.PMT.Streams {
+			inUse[e.PID] = true
+		}
+		next := 0x400
+		for s.PMT.SectionLength() < 900 {
+			for inUse[next] {
+				next++
+			}
+			inUse[next] = true
+			e := ref.ES{Type: streamTypes[r.Intn(len(streamTypes))], PID: next, Descs: []ref.Desc{{Tag: 0x45, Body: r.Bytes(r.Range(20, 60))}}}
+			s.PMT.Streams = append(s.PMT.Streams, e)
+		}
+		for s.PMT.SectionLength() > 1021 {
+			s.PMT.Streams = s.PMT.Streams[:len(s.PMT.Streams)-1]
+		}
+		s.Pointer = r.Pick(23, 60, 150, 254, 255)
+	}
 	plen := 1 + s.Pointer + len(s.PMT.Section()) + s.Trailing
 	pid := r.Pick(0x20, 0x64, 0x40, 0xFFF, 0x1100, r.Range(0x40, 0xFFF))
 	s.In = genWire(r, plen, pid)
@@ -278,6 +298,31 @@ func (c14) Exec(script interface{}, c *core.Ctx) {
 		c.Probe("keep_some")
 	}
 
+	if ptr+len(sec)-3 > 1021 {
+		c.Probe("section_plus_pointer_gt_1021")
+	}
+	// a call on a sibling table first: same PID, same first 8 section bytes (table id, length,
+	// program number, version, section numbers), other elementary PIDs - nothing the library
+	// remembers about it may be used for the call under test
+	if s.Out.Salt%3 == 0 && len(s.PMT.Streams) > 0 {
+		sib := s.PMT
+		sib.Streams = append([]ref.ES(nil), s.PMT.Streams...)
+		var sibPids []int
+		for i := range sib.Streams {
+			sib.Streams[i].PID = (sib.Streams[i].PID + 0x333) & 0x1fff
+			sibPids = append(sibPids, sib.Streams[i].PID)
+		}
+		sp := parties.Packetise(ref.Payload(ptr, [][]byte{sib.Section()}, 0), parties.Carrier{PID: pmtPid})
+		var sps []*packet.Packet
+		for i := range sp {
+			p := packet.Packet(sp[i])
+			sps = append(sps, &p)
+		}
+		if !c.Call("psi.FilterPMTPacketsToPids(sibling)", func() { psi.FilterPMTPacketsToPids(sps, sibPids) }) {
+			return
+		}
+		c.Probe("sibling_call_before")
+	}
 	// a refused call on another PMT first: nothing of it may leak into the call under test
 	if s.Out.Salt%2 == 0 {
 		other := ref.PMTSpec{Program: 9, Version: 1, CurrentNext: true, PCRPID: 0x51, Streams: []ref.ES{{Type: 0x02, PID: 0x51}, {Type: 0x03, PID: 0x52, Descs: []ref.Desc{{Tag: 10, Body: []byte("deu\x00")}}}}}
